@@ -31,8 +31,16 @@ func genProto(r *lib.Rng, g int, thorough bool) ProtoSpec {
 		for k := 0; k < 3; k++ {
 			seed = append(seed, s[r.Intn(len(s))])
 		}
-	case mode < 90: // error path: BadP / BadK only (BadOuter only alone, see below)
-		seed = append(seed, poolByName["BadP"], poolByName["BadK"])
+	case mode < 90: // error path: BadP / BadK / BadQ only (BadOuter only alone, see below)
+		if r.Bool() {
+			seed = append(seed, poolByName["BadP"], poolByName["BadK"])
+		} else {
+			// the malformed relation comes after a well-formed one (a nested Parse precedes the failure)
+			seed = append(seed, poolByName["BadQ"])
+			if r.Bool() {
+				seed = append(seed, poolByName["BadP"])
+			}
+		}
 	default: // BadOuter: its result depends on the schedule once BadP is parsed concurrently
 		seed = append(seed, poolByName["BadOuter"])
 		g = 1
@@ -61,6 +69,29 @@ func genProto(r *lib.Rng, g int, thorough bool) ProtoSpec {
 	}
 	same := r.Chance(3, 10)
 	first := r.Intn(len(types))
+	// together: every goroutine starts with the SAME type and sleeps in its first ColumnName callback,
+	// i.e. between the second cache look-up and LoadOrStore: all of them are past the second look-up
+	// before anybody publishes, one wins, all the others take the LoadOrStore-loser path (for a type
+	// whose parse fails the winner's error is found AFTER publication: the losers must report it too)
+	together := !warm && g >= 2 && r.Chance(1, 4)
+	if bad && g >= 2 {
+		together = r.Chance(2, 3)
+	}
+	if together {
+		same = true
+		if bad {
+			// a type whose own relation is malformed
+			var bt []int
+			for i, t := range types {
+				if Pool[t].Bad && Pool[t].Name != "BadOuter" {
+					bt = append(bt, i)
+				}
+			}
+			if len(bt) > 0 {
+				first = bt[r.Intn(len(bt))]
+			}
+		}
+	}
 	for i := 0; i < g; i++ {
 		n := 1 + r.Intn(maxCalls)
 		var p []int
@@ -87,6 +118,10 @@ func genProto(r *lib.Rng, g int, thorough bool) ProtoSpec {
 			default:
 				d = append(d, 20*(1+r.Intn(25)))
 			}
+		}
+		if together {
+			// k = 0 is TableName (between the two look-ups), k = 1 the first ColumnName
+			d = append([]int{[]int{-1, 0, 20}[r.Intn(3)], 300 + 20*r.Intn(20)}, d...)
 		}
 		spec.Delays = append(spec.Delays, d)
 	}
